@@ -244,7 +244,10 @@ def parse_segment(text, version=None, encoding_chars=None, validation_level=None
     encoding_chars = _get_encoding_chars(encoding_chars, version)
     validation_level = _get_validation_level(validation_level)
 
-    segment_name = text[:3]
+    segment_name = text[:3].upper()
+    if segment_name == 'MSH' and text[3:4] != encoding_chars['FIELD']:
+        # MSH-1 is the field separator itself: an MSH segment using another one cannot be read with these encoding chars
+        raise ParserError("Invalid MSH segment: {0}".format(text[:10]))
     text = text[4:] if segment_name != 'MSH' else text[3:]
     segment = Segment(segment_name, version=version, validation_level=validation_level,
                       reference=reference)
